@@ -355,6 +355,30 @@ def run(ctx):
             for _ in range(int(rng.integers(1, 11))):
                 add_random_gate(qc, rng, n, log, max_multi=max_multi, counter=counter)
             allow = bool(rng.random() < 0.5)
+        if it == 1 or rng.random() < 0.01:
+            # directed: two entangling gates on one pair (the first must be heralded), then so many further two-qubit gates
+            # on one of its qubits that any narrow counter of "later uses" has gone round (255 / 256 / 511 / 512)
+            n = 3
+            qc = QuantumCircuit(n)
+            log = []
+            q0, q1, q2 = [int(x) for x in rng.permutation(3)]
+            qc.h(q0); log.append(["h", q0])
+            g_ = str(rng.choice(["cx", "cz"]))
+            getattr(qc, g_)(q0, q1); getattr(qc, g_)(q0, q1); log += [[g_, q0, q1], [g_, q0, q1]]
+            k_ = int(rng.choice([254, 255, 256, 511]))
+            for _ in range(k_):
+                qc.swap(q0, q2)
+            log.append(["swap x%d" % k_, q0, q2])
+            allow = True
+            ctx.bucket("several_hundred_gates")
+        elif rng.random() < 0.015 and n >= 3 and n <= 4:
+            # a very long tail: a few hundred swap gates after the entangling part (counts beyond 255 per qubit)
+            a_, b_ = [int(x) for x in rng.choice(n, size=2, replace=False)]
+            k_ = int(rng.choice([250, 255, 256, 257, 300, 512]))
+            for _ in range(k_):
+                qc.swap(a_, b_)
+            log.append(["swap x%d" % k_, a_, b_])
+            ctx.bucket("several_hundred_gates")
         if any(g[0] == "swap" for g in log):
             ctx.bucket("swap_gate")
         if rng.random() < 0.06:
